@@ -25,7 +25,7 @@ AtReason(S, E, e) ==
               THEN "at-reports-empty-or-inverted-interval"
               ELSE IF want \subseteq got THEN "at-reports-non-covering-interval"
               ELSE "at-misses-covering-interval"
-       ELSE IF ~Ascending(e.ret) THEN "at-not-ascending"
+       ELSE IF ~IsAscending(e.ret) THEN "at-not-ascending"
        ELSE "ok"
 
 Reason(S, E, e) ==
